@@ -191,6 +191,132 @@ def check_loops_progress(ctx, d) -> None:
     ctx.floor(rule, n_loops, 3, "while loops in dsl.py")
 
 
+def check_whole_string_value(ctx, d) -> None:
+    """R12: a value keeps its type (int, dict ...) only when the reference is the WHOLE string it occurs in."""
+    rule = "C06.R12-typed-value-only-for-a-whole-string-reference"
+    n = 0
+    for q, f in d.functions.items():
+        # substituters: functions that splice a value into a string by match span,  what[:m.start()] + v + what[m.end():]
+        splices = [a for a in source.walk_own(f) if isinstance(a, ast.Assign) and isinstance(a.value, ast.BinOp) and any(
+            isinstance(x, ast.Subscript) and isinstance(x.slice, ast.Slice) and any(
+                isinstance(c, ast.Call) and last_attr(c) in ("start", "end") for c in ast.walk(x.slice)) for x in ast.walk(a.value))]
+        if not splices:
+            continue
+        subject = splices[0].targets[0].id if isinstance(splices[0].targets[0], ast.Name) else None
+        cfg = CFG(f)
+
+        def atoms_of(e: ast.AST) -> Set[str]:
+            """which facts a TRUE e guarantees: 'start0' (<m>.start() == 0), 'endlen' (<m>.end() == len(<subject>))"""
+            if isinstance(e, ast.Name):
+                e2 = match.resolve_local(f, e)
+                return atoms_of(e2) if e2 is not e else set()
+            if isinstance(e, ast.BoolOp) and isinstance(e.op, ast.And):
+                out: Set[str] = set()
+                for v in e.values:
+                    out |= atoms_of(v)
+                return out
+            cp = match.compare_parts(e)
+            if cp and isinstance(cp[1], ast.Eq):
+                for a, b in ((cp[0], cp[2]), (cp[2], cp[0])):
+                    if isinstance(a, ast.Call) and last_attr(a) == "start" and not a.args and isinstance(b, ast.Constant) and b.value == 0 \
+                            and not isinstance(b.value, bool):
+                        return {"start0"}
+                    if isinstance(a, ast.Call) and last_attr(a) == "end" and not a.args and isinstance(b, ast.Call) and call_name(b) == "len" \
+                            and b.args and isinstance(b.args[0], ast.Name) and b.args[0].id == subject:
+                        return {"endlen"}
+            return set()
+        # returns of something that is not the spliced string: the value itself
+        raw_returns = [nd for nd in cfg.nodes if nd.kind == "stmt" and isinstance(nd.ast, ast.Return) and isinstance(nd.ast.value, ast.Name)
+                       and nd.ast.value.id != subject]
+        if not raw_returns:
+            continue
+        ctx.analysed(f)
+        for rn in raw_returns:
+            n += 1
+            missing = []
+            for need in ("start0", "endlen"):
+                edges = []
+                for tn in cfg.nodes:
+                    if tn.kind == "test" and tn.ast is not None:
+                        inner, flip = tn.ast, False
+                        while isinstance(inner, ast.UnaryOp) and isinstance(inner.op, ast.Not):
+                            inner, flip = inner.operand, not flip
+                        if need in atoms_of(inner):
+                            edges.append((tn, "F" if flip else "T"))
+                if not edges or not match.only_via_edges(cfg, rn, edges):
+                    missing.append(need)
+            ok = not missing
+            ctx.ob(rule, rn.ast, ok,
+                   "%s returns the value itself only when the reference starts at offset 0 and ends at the end of the string" % q if ok else
+                   "%s returns the parameter's value itself (keeping its type) without establishing that the reference %s: for "
+                   "'%%(tag)s%%(count)s' with count: 3 the second reference 'is all that is left' after the first substitution, the function "
+                   "returns the number 3 and drops 'run' - the argument supplied along the call chain is not what the step receives (and a "
+                   "dictionary glued to other text is accepted instead of rejected)" % (
+                       q, " and ".join({"start0": "starts at offset 0 of the string", "endlen": "ends at the end of the string"}[m_] for m_ in missing)),
+                   construct="%s: return %s <- whole-string reference" % (q, rn.ast.value.id))
+    ctx.floor(rule, n, 2, "returns of a typed parameter value in the span-substituting helpers of dsl.py")
+
+
+def check_first_element_access(ctx, d) -> None:
+    """R13: <obj>.<list field that may be empty>[0] is read only where the list was tested to be non-empty (or the empty case recorded an
+    error that is raised before the read)."""
+    rule = "C06.R13-first-element-of-a-possibly-empty-field"
+    # list fields of the schema classes whose default is the empty list
+    empty_default: Set[str] = set()
+    for cls in ast.walk(d.tree):
+        if isinstance(cls, ast.ClassDef):
+            for st in cls.body:
+                if isinstance(st, ast.AnnAssign) and isinstance(st.target, ast.Name) and "List" in source.src(st.annotation) and isinstance(st.value, ast.Call):
+                    dflt = list(st.value.args[:1]) + [k.value for k in st.value.keywords if k.arg == "default"]
+                    if any(isinstance(x, ast.List) and not x.elts for x in dflt):
+                        empty_default.add(st.target.id)
+    n = 0
+    for q, f in d.functions.items():
+        reads = [x for x in source.walk_own(f) if isinstance(x, ast.Subscript) and isinstance(x.slice, ast.Constant) and x.slice.value == 0
+                 and isinstance(x.value, ast.Attribute) and x.value.attr in empty_default and isinstance(x.ctx, ast.Load)]
+        if not reads:
+            continue
+        cfg = CFG(f)
+        ctx.analysed(f)
+        for rd in reads:
+            n += 1
+            subj = source.src(rd.value)
+            at = [nd for nd in cfg.nodes if nd.ast is not None and nd.kind in ("stmt", "test", "for", "with") and any(x is rd for x in ast.walk(nd.ast))
+                  and not isinstance(nd.ast, (ast.FunctionDef, ast.ClassDef))]
+
+            def empty_label(t: ast.AST) -> Optional[str]:
+                flip = False
+                while isinstance(t, ast.UnaryOp) and isinstance(t.op, ast.Not):
+                    t, flip = t.operand, not flip
+                if source.src(t) == subj:
+                    return "T" if flip else "F"
+                cp = match.compare_parts(t)
+                if cp and isinstance(cp[0], ast.Call) and call_name(cp[0]) == "len" and cp[0].args and source.src(cp[0].args[0]) == subj \
+                        and isinstance(cp[2], ast.Constant) and cp[2].value == 0:
+                    lab = "T" if isinstance(cp[1], ast.Eq) else "F" if isinstance(cp[1], (ast.Gt, ast.NotEq)) else None
+                    return None if lab is None else (match.other(lab) if flip else lab)
+                return None
+            tests = match.test_nodes(cfg, empty_label)
+            ok = bool(at) and bool(tests) and all(match.only_via_edges(cfg, a_, [(t, match.other(lab)) for (t, lab) in tests]) for a_ in at)
+            if not ok and at and tests:
+                # the empty side records an error in a collection, and the read is only reached on the side of a later test of that
+                # collection where nothing was recorded (whose other side cannot reach the read: it raises)
+                for (t, lab) in tests:
+                    region = cfg.reach([m for (m, l2) in t.succ if l2 == lab], blocked=at)
+                    recorded = {source.src(c.func.value) for nd in cfg.nodes if nd.id in region and nd.ast is not None and nd.kind == "stmt"
+                                for c in own_calls(nd.ast) if last_attr(c) in ("append", "extend")}
+                    gates = [(g, "F") for g in cfg.nodes if g.kind == "test" and g.ast is not None and source.src(g.ast) in recorded
+                             and not any(a_.id in cfg.reach([m for (m, l2) in g.succ if l2 == "T"]) for a_ in at)]
+                    if recorded and gates and all(match.only_via_edges(cfg, a_, gates) for a_ in at):
+                        ok = True
+            ctx.ob(rule, rd, ok,
+                   "%s reads %s[0] only where the list is known not to be empty (or the empty case was reported and raised first)" % (q, subj) if ok else
+                   "%s reads %s[0] although the schema lets the list be empty and no test of it precedes the read: a namespace with an empty "
+                   "'%s' leaves the compiler with IndexError instead of a DSLInvalidError that names the location" % (q, subj, rd.value.attr),
+                   construct="%s: %s[0] <- not empty" % (q, subj))
+    ctx.floor(rule, n, 1, "reads of the first element of a schema list that may be empty")
+
+
 def check_ancestor_chain(ctx, d) -> None:
     """R9: what _check_for_cycle reads must mean 'the scopes that are open right now'."""
     rule = "C06.R9-ancestor-chain-is-balanced"
@@ -307,6 +433,11 @@ def run(ctx) -> None:
              "leaves the compiler as AttributeError, not as DSLInvalidError")
     ctx.rule("C06.R11-loops-make-progress", "no while loop of dsl.py has a cycle on which nothing changes (no self-dependent update, no "
              "mutation, only pure calls): such a cycle repeats for ever and the compiler never returns")
+    ctx.rule("C06.R12-typed-value-only-for-a-whole-string-reference", "a span-substituting helper returns a parameter's value itself (int, bool, "
+             "dict - not spliced into the text) only on paths that established <match>.start() == 0 and <match>.end() == len(<string>): "
+             "the reference is the whole string, nothing before it was substituted away")
+    ctx.rule("C06.R13-first-element-of-a-possibly-empty-field", "dsl.py reads <object>.<field>[0] of a schema list whose default is [] only where the "
+             "list was tested non-empty, or where the empty case recorded a located error that is raised before the read")
     ctx.rule("C06.R9-ancestor-chain-is-balanced", "the cycle detector of ScopeStack decides from containers that enter() grows and exit() "
              "shrinks symmetrically: a list pushed and popped, or a set/dict whose removal key is the same quantity of the popped scope "
              "as the key that was added for the entered one")
@@ -551,6 +682,8 @@ def run(ctx) -> None:
     check_ancestor_chain(ctx, d)
     check_match_before_use(ctx, d)
     check_loops_progress(ctx, d)
+    check_whole_string_value(ctx, d)
+    check_first_element_access(ctx, d)
     check_split_full_prefix(ctx, d)
 
     # ---------------- R6 -------------------------------------------------------------------------------
